@@ -90,6 +90,11 @@ PROPS = {
         profiles=dict(quick=[('mem', 20, 1)], thorough=[('mem', 150, 8)]),
         explanation='model-level theorems (Props.C08: only two DH key slots plus the exchange in progress; exact reset of the AKE context on completion, of keys/SMP/AKE on End and peer disconnect); heap level: reflection scan of the object graph reachable from the real *Conversation after every API call for every secret drawn from Conversation.Rand and every text, with alias tracking to tell zeroed from dropped buffers',
         assumptions=['copies made and dropped inside a single call, registers, stack and GC relocation are not visible to the scan', 'known finding: SMP exponents dropped without zeroing (test-pinned)']),
+    'C20': dict(
+        module='Props.C20', level='other',
+        profiles=dict(quick=[('conc', 6, 1), ('life', 15, 1)], thorough=[('conc', 24, 4), ('life', 150, 2)]),
+        explanation='lemma in a model of Go slices (append on a len=cap slice never writes the shared backing array) + regenerated facts (no package-level variable written outside init; which package slices are append prefixes) + run-time check len=cap of those slices + N conversation pairs on goroutines under the race detector, each transcript compared with the same pair run alone; the Go memory model itself is not formalised, hence level other',
+        assumptions=['data races are detected dynamically by the Go race detector on the schedules that occur', 'each pair uses its own copy of the long-term key object']),
 }
 
 # properties not claimed yet (kept current; each is moved into PROPS when its check exists)
